@@ -38,7 +38,7 @@ ASSUMPTIONS = [
     "verovio is not installed: the lxml branch of the MEI reader is the one that runs",
 ]
 COMPONENTS = {"real": ["partitura.io.importkern", "partitura.io.exportkern", "partitura.io.importmei", "partitura.io.exportmei", "partitura.io.load_score", "numpy loadtxt/genfromtxt/savetxt", "lxml"], "stub": ["raw file layer (SimFS)", "HTTP client (fake urlopen)", "independent kern and MEI encoders (model/ref_kern.py, model/ref_mei.py)"]}
-PROBES = ("kern_multi_spine", "kern_ties", "kern_tuplets", "kern_grace", "mei_attr_defs", "mei_child_defs", "mei_no_ppq", "mei_layers", "mei_tuplets", "upper_case_extension", "url_route", "read_fault", "write_fault", "export_roundtrip_checked")
+PROBES = ("kern_same_part", "mei_dur_ppq", "kern_multi_spine", "kern_ties", "kern_tuplets", "kern_grace", "mei_attr_defs", "mei_child_defs", "mei_no_ppq", "mei_layers", "mei_tuplets", "upper_case_extension", "url_route", "read_fault", "write_fault", "export_roundtrip_checked")
 
 
 # ----------------------------------------------------------------------------
@@ -71,7 +71,7 @@ def generate(seed, tier, cfg):
         "workload": asc,
         "cfg": cfg,
         "faults": faults,
-        "knobs": {"rich": rich, "ext": ext, "route": route, "chunk": k.choice((0, 0, 7, 64)), "style": {"attr_defs": k.random() < 0.5, "beams": False, "ppq": k.random() < 0.5, "mrest": True}},
+        "knobs": {"rich": rich, "ext": ext, "route": route, "chunk": k.choice((0, 0, 7, 64)), "style": {"attr_defs": k.random() < 0.5, "beams": False, "ppq": k.random() < 0.5, "mrest": True, "durppq": k.random() < 0.5, "same_part": k.random() < 0.7}},
     }
 
 
@@ -190,7 +190,10 @@ def execute(case, keep_log=False):
 
 def run_in(res, fs, asc, kn, fmt, path, faults, shape):
     if fmt == "kern":
-        text, exp = ref_kern.encode(asc)
+        same_part = bool(kn["style"].get("same_part")) and len(asc["parts"]) == 1
+        text, exp = ref_kern.encode(asc, same_part=same_part)
+        if same_part and text and len(exp["spines"]) > 1:
+            res.probe("kern_same_part")
         data = text.encode("utf-8") if text else None
     else:
         data, exp = ref_mei.encode(asc, kn["style"])
@@ -207,6 +210,8 @@ def run_in(res, fs, asc, kn, fmt, path, faults, shape):
         res.probe("mei_attr_defs" if kn["style"]["attr_defs"] else "mei_child_defs")
         if not kn["style"]["ppq"]:
             res.probe("mei_no_ppq")
+        elif kn["style"].get("durppq"):
+            res.probe("mei_dur_ppq")
         if shape["tuplets"]:
             res.probe("mei_tuplets")
     fs.put(path, data)
